@@ -17,6 +17,8 @@ pub fn all_frontends(s: &[u8], nfix: usize, with_default: bool) -> Vec<(u8, u16,
     let mut v: Vec<(u8, u16, Vec<Ev>)> = vec![
         (CL_PUSH, 1, run_push::<Vec<u8>>(&ops, true)),
         (CL_PUSH, 2, run_push_n(nfix, &ops, true)),
+        (CL_PUSH, 15, run_push_from_buf::<Vec<u8>>(&ops, true)),
+        (CL_PUSH, 16, run_push_from_buf_n(nfix.max(2), &ops, true)),
         (CL_WHOLE, 3, run_decode(s)),
         (CL_PULL, 4, run_stream::<Vec<u8>>(s, 2)),
         (CL_PULL, 5, run_stream_n(nfix, s, 2)),
